@@ -102,11 +102,14 @@ SEARCH = [
 def search_kind(kind, seed=0):
     if not build():
         return None
-    r = common.run([VW, 'search', kind, str(seed)], timeout=600)
+    r = common.run([VW, 'search', kind, str(seed)], timeout=900)
     out = (r['out'] or '').strip()
     if out.startswith('FOUND '):
         _, hx, desc = out.split(' ', 2)
         return {'kind': 'vw', 'args': [kind, hx], 'hex': hx, 'ascii': bytes.fromhex(hx).decode('latin1'), 'found_by': 'search ' + kind, 'desc': desc}
+    if not out.startswith('NONE'):
+        # the enumeration itself died (timeout, or a panic inside the library that the harness does not catch): not a verdict
+        raise RuntimeError('bounded search %s did not complete (rc=%s): %s' % (kind, r['rc'], ((r['err'] or '') + out)[-400:].replace('\n', ' ')))
     return None
 
 
